@@ -40,6 +40,7 @@ type Obs struct {
 	Reenc  []byte
 	Size   string // hex or "-"
 	SignH  *thor.Bytes32
+	IG     string // IntrinsicGas(): hex, "err", or "-" (blocks: comma-joined per tx)
 	Fails  []string // property failures observed directly on the implementation (class:detail)
 	ErrTxt string
 }
@@ -51,6 +52,19 @@ func safely(name string, fails *[]string, f func()) {
 		}
 	}()
 	f()
+}
+
+func igOf(t *tx.Transaction) (s string) {
+	defer func() {
+		if recover() != nil {
+			s = "panic"
+		}
+	}()
+	g, err := t.IntrinsicGas()
+	if err != nil {
+		return "err"
+	}
+	return hn(g)
 }
 
 func dumpTx(t *tx.Transaction) string {
@@ -204,6 +218,7 @@ func observe(kind string, in []byte) (o Obs) {
 			o.Reenc = mb
 		}
 		o.Size = hn(uint64(t.Size()))
+		o.IG = igOf(&t)
 		sh := t.SigningHash()
 		o.SignH = &sh
 		exerciseTx(&t, mb, &o.Fails)
@@ -224,7 +239,7 @@ func observe(kind string, in []byte) (o Obs) {
 		if err != nil {
 			o.Fails = append(o.Fails, "encode-error:decoded header does not encode")
 		}
-		o.Reenc, o.Size = re, "-"
+		o.Reenc, o.Size, o.IG = re, "-", "-"
 		sh := h.SigningHash()
 		o.SignH = &sh
 		exerciseHeader(&h, &o.Fails)
@@ -255,7 +270,7 @@ func observe(kind string, in []byte) (o Obs) {
 		if err != nil {
 			o.Fails = append(o.Fails, "encode-error:decoded receipt does not encode")
 		}
-		o.Reenc, o.Size = re, "-"
+		o.Reenc, o.Size, o.IG = re, "-", "-"
 		safely("receipt-root", &o.Fails, func() { _ = tx.Receipts{&r}.RootHash() })
 	case "BLK", "RBLK":
 		var b *block.Block
@@ -299,9 +314,14 @@ func observe(kind string, in []byte) (o Obs) {
 			_ = b.Body()
 		})
 		exerciseHeader(b.Header(), &o.Fails)
+		var igs []string
 		for _, t := range b.Transactions() {
 			mb, _ := t.MarshalBinary()
 			exerciseTx(t, mb, &o.Fails)
+			igs = append(igs, igOf(t))
+		}
+		if o.IG = strings.Join(igs, ","); o.IG == "" {
+			o.IG = "-"
 		}
 	default:
 		hx.Fatal("unknown kind %q", kind)
